@@ -3,6 +3,7 @@ pub mod bfs;
 pub mod cli;
 pub mod drive;
 pub mod engine;
+pub mod genr;
 pub mod refcond;
 pub mod report;
 pub mod sched;
